@@ -134,11 +134,16 @@ def run(ctx, replay=None):
              {"op": "sub", "args": ["v6", "v2"], "out": "v7"}]
     check_program(ctx, probe, None)
     N = ctx.scale(700, 6000)
+    mini = []
     for i in range(N):
         zero = 0.05 if rng.random() < 0.2 else 0.0
         prog, g = P.gen_program(rng, depth=rng.randint(2, ctx.scale(7, 11)), avoid=("swv-consumer",), zero_axes=zero,
                                 ops=P.DEFAULT_OPS + ("self_transpose", "self_transpose", "map_blocks", "expand_dims", "rechunk"))
         check_program(ctx, prog, g.env[prog[-1]["out"]])
+        if len(mini) < ctx.scale(150, 1500):
+            mini.append((prog, g.env[prog[-1]["out"]]))
         if i < 3:
             ctx.sample({"program": prog})
     X.flush(ctx)
+    # the model's own optimizer on the programs that lie inside the mini-language
+    X.model_optimize_stream(ctx, mini)
